@@ -1272,4 +1272,29 @@ theorem converted_source_circuit_implements_own_postselection [Field R] [CharZer
   simp only [convLayout, List.mem_map, List.mem_range]
   exact ⟨q, hqs q hq, rfl⟩
 
+/-- everything about a converted source circuit in one statement: the conversion goes through, the placed gates sit
+on the modes the driver reports (`planModes`, compared with the real processor on every converted circuit), their
+shape passes the cut check, no herald mode is shared, and the logical table is the scaled product of the gates -/
+theorem converted_source_circuit_summary [Field R] [CharZero R] (n : ℕ)
+    (oneQ : Gate → Matrix (Fin 2) (Fin 2) R) (src : List Gate) (hsrc : ∀ g ∈ src, SrcOk n g)
+    (qs : List ℕ) (hqs : ∀ q ∈ qs, q < n)
+    (r h c2 s2 : R) (hr : 3 * r * r = 1) (hh : 2 * h * h = 1) (hc : 6 * c2 * c2 = 3 + 6 * h * r)
+    (hs : 6 * s2 * s2 = 3 - 6 * h * r) (hcs : 2 * c2 * s2 = r) :
+    let hv := planHeralds (planKinds true src (labelCnots true src))
+    ∃ cgs, convGatesM n hv oneQ src (labelCnots true src) 0 = some cgs ∧
+      (convSteps r h c2 s2 cgs).map (·.S) = planModes n src (planKinds true src (labelCnots true src)) 0 ∧
+      cutCheck ((convSteps r h c2 s2 cgs).map fun s => (s.Q, s.leaky)) = true ∧
+      (convSteps r h c2 s2 cgs).Pairwise
+        (fun g g' => ∀ hd ∈ (convLayout n hv).heralds, hd.1 ∉ g.S ∨ hd.1 ∉ g'.S) ∧
+      gateTable (PM.C02.circuitMatrix ((convSteps r h c2 s2 cgs).map (·.U))) (convLayout n hv)
+          (pairPS (qs.map (2 * ·))) =
+        (((convSteps r h c2 s2 cgs).map (·.c)).prod) • (convSteps r h c2 s2 cgs).foldl (fun M g => g.G * M) 1 := by
+  intro hv
+  obtain ⟨cgs, hcgs, htab⟩ := converted_source_circuit_implements_own_postselection n oneQ src hsrc qs hqs
+    r h c2 s2 hr hh hc hs hcs
+  refine ⟨cgs, hcgs, converted_gates_sit_on_plan_modes n hv oneQ r h c2 s2 src _ 0 cgs hcgs, ?_,
+    convGatesM_pairwise n hv oneQ r h c2 s2 src _ 0 cgs hcgs, htab⟩
+  rw [convGatesM_shape n hv oneQ r h c2 s2 src _ 0 cgs hcgs]
+  exact label_cutCheck src (fun g hg => srcOk_qubits (hsrc g hg)) (fun g hg hcn h2 => srcOk_name (hsrc g hg) hcn h2)
+
 end PM.C20
